@@ -498,6 +498,120 @@ fn sweep_functions(rep: &mut Report) {
     rep.set("function_cases_unspecified_nonfinite_loop_bounds", json!(unspecified));
 }
 
+// ------------------------------------------------------------------------------------------------
+// (d) redefinition histories: every sequence of <= n statements over an alphabet in which one name
+// is defined as functions of different arity, a variable, a unit, a struct and a function value,
+// and used in every call shape (the token strings of (a) are too short to redefine anything)
+
+pub const REDEF: [&str; 18] = [
+    "fn rdh() = 0",
+    "fn rdh(x) = x",
+    "fn rdh(x, y) = x + y",
+    "fn rdh(x: Length) -> Length = 2 x",
+    "let rdh = 1",
+    "let rdg = rdh",
+    "rdg()",
+    "rdg(1)",
+    "rdg(1, 2)",
+    "rdh",
+    "rdh(1 m)",
+    "fn rdk(f) = f(1)\nrdk(rdg)",
+    "[rdg] |> head",
+    "unit rdh",
+    "struct rdh { a: Scalar }",
+    "let rdg = [rdh, rdh]",
+    "fn rdh(x) = if x < 1 then 0 else len([rdh]) + rdh(x - 1)",
+    "rdh(2)",
+];
+
+fn sweep_redefinitions(rep: &mut Report) {
+    let n = rep.tier.pick(4usize, 5usize);
+    let k = REDEF.len();
+    let base = prelude_ctx();
+    let mut total = 0usize;
+    for len in 1..=n {
+        total += k.pow(len as u32);
+    }
+    // index -> (len, digits)
+    let decode = |mut idx: usize| -> Vec<usize> {
+        let mut len = 1;
+        loop {
+            let c = k.pow(len as u32);
+            if idx < c {
+                break;
+            }
+            idx -= c;
+            len += 1;
+        }
+        let mut v = vec![0; len];
+        for p in (0..len).rev() {
+            v[p] = idx % k;
+            idx /= k;
+        }
+        v
+    };
+    let chunk = 500usize;
+    let jobs = total.div_ceil(chunk);
+    let outs: Vec<(u64, u64, Vec<(String, String, String)>)> = par_map(jobs, || (), |_, j| {
+        let (mut steps, mut ok) = (0u64, 0u64);
+        let mut panics = vec![];
+        for idx in j * chunk..((j + 1) * chunk).min(total) {
+            let seq = decode(idx);
+            // the whole history as ONE input (the late-bound call then sees the final definitions
+            // before anything has run)
+            if seq.len() > 1 {
+                let joined: Vec<&str> = seq.iter().map(|&i| REDEF[i]).collect();
+                let joined = joined.join("\n");
+                let mut ctx = base.clone();
+                steps += 1;
+                match exercise(&mut ctx, &joined) {
+                    Ok("ok") => ok += 1,
+                    Ok(_) => {}
+                    Err(p) => {
+                        if panics.len() < 20 {
+                            panics.push((p.site(), p.message.clone(), format!("ONE INPUT:\n{joined}")));
+                        }
+                    }
+                }
+            }
+            let mut ctx = base.clone();
+            for (pos, &s) in seq.iter().enumerate() {
+                steps += 1;
+                match exercise(&mut ctx, REDEF[s]) {
+                    Ok("ok") => ok += 1,
+                    Ok(_) => {}
+                    Err(p) => {
+                        if panics.len() < 20 {
+                            let hist: Vec<&str> = seq[..=pos].iter().map(|&i| REDEF[i]).collect();
+                            panics.push((p.site(), p.message.clone(), hist.join("\n")));
+                        }
+                        break; // the session may be inconsistent after a panic
+                    }
+                }
+            }
+        }
+        (steps, ok, panics)
+    });
+    let (mut steps, mut ok) = (0u64, 0u64);
+    for (s, o, panics) in outs {
+        steps += s;
+        ok += o;
+        for (site, msg, hist) in panics {
+            rep.violation(
+                format!("callsite:{site}"),
+                format!("[redefinition history] `{}` panics: {} at {site}", hist.replace('\n', "⏎"), msg.chars().take(200).collect::<String>()),
+                json!({"history": hist}),
+            );
+        }
+    }
+    rep.states += total as u64;
+    rep.transitions += steps;
+    rep.evaluations += total as u64;
+    rep.validated += total as u64;
+    rep.nontrivial_extra += ok;
+    rep.set("redefinition_histories", json!({"sequences": total, "max_length": n, "alphabet": k, "statements_run": steps, "statements_accepted": ok}));
+}
+
 pub fn check(rep: &mut Report) {
     let t_start = Instant::now();
     // (a)
@@ -517,6 +631,9 @@ pub fn check(rep: &mut Report) {
         }
     }
     eprintln!("[C08] token sweeps done at {:.1}s", t_start.elapsed().as_secs_f64());
+    // (d)
+    sweep_redefinitions(rep);
+    eprintln!("[C08] redefinition histories done at {:.1}s", t_start.elapsed().as_secs_f64());
     // (c)
     sweep_functions(rep);
     eprintln!("[C08] function sweep done at {:.1}s", t_start.elapsed().as_secs_f64());
@@ -585,7 +702,7 @@ pub fn check(rep: &mut Report) {
     rep.set("extreme_cases", json!(cases.len()));
     rep.set("extreme_cases_handled_gracefully", json!(fine));
     rep.set("extreme_cases_crashing", json!(bad));
-    rep.rule = "(a) every token string of length <= L over an alphabet with one spelling of every token kind (52 tokens; prelude session: 36-token sub-alphabet at the top length), each interpreted in a fresh clone with the result echoed or the diagnostic rendered; (b) every template x extreme value/repetition count, each in its own child process with an 8 s (quick) / 20 s (thorough) limit and a 6 GiB address-space limit; (c) every standard-library function x every argument tuple from per-type edge alphabets (numbers incl. NaN/inf and dimensionful values, ASCII/multi-byte/empty strings, lists, booleans, date-times, function values), in child processes; non-trivial = accepted token strings + extreme cases + functions swept".into();
+    rep.rule = "(a) every token string of length <= L over an alphabet with one spelling of every token kind (52 tokens; prelude session: 36-token sub-alphabet at the top length), each interpreted in a fresh clone with the result echoed or the diagnostic rendered; (b) every template x extreme value/repetition count, each in its own child process with an 8 s (quick) / 20 s (thorough) limit and a 6 GiB address-space limit; (c) every standard-library function x every argument tuple from per-type edge alphabets (numbers incl. NaN/inf and dimensionful values, ASCII/multi-byte/empty strings, lists, booleans, date-times, function values), in child processes; (d) every history of <= 4 (thorough 5) statements over an 18-statement alphabet that defines one name as functions of different arity, a variable, a unit, a struct and a function value and uses it in every call shape, on a prelude session, run statement by statement and as one input; non-trivial = accepted token strings + extreme cases + functions swept + accepted history statements".into();
     rep.assumptions = vec![
         "the harness builds numbat with debug assertions and overflow checks (a 'checked build')".into(),
         "random byte soup is not in this family; tokenizer states needing longer contexts than L tokens are only reached through the templates".into(),
@@ -626,6 +743,35 @@ pub fn replay(case: &J) -> i32 {
             }
         }
         return 2;
+    }
+    if let Some(hist) = case["history"].as_str() {
+        let mut ctx = prelude_ctx();
+        if let Some(joined) = hist.strip_prefix("ONE INPUT:\n") {
+            println!("{joined}");
+            return match exercise(&mut ctx, joined) {
+                Ok(_) => {
+                    println!("no violation on this tree");
+                    0
+                }
+                Err(p) => {
+                    println!("VIOLATION reproduced: {} at {}", p.message, p.location);
+                    1
+                }
+            };
+        }
+        // statements of the alphabet may span two lines; replay them in the recorded grouping
+        let mut rest = hist;
+        while !rest.is_empty() {
+            let stmt = REDEF.iter().filter(|s| rest.starts_with(**s)).max_by_key(|s| s.len()).copied().unwrap_or(rest);
+            println!("> {}", stmt.replace('\n', "⏎"));
+            if let Err(p) = exercise(&mut ctx, stmt) {
+                println!("VIOLATION reproduced: {} at {}", p.message, p.location);
+                return 1;
+            }
+            rest = rest[stmt.len()..].trim_start_matches('\n');
+        }
+        println!("no violation on this tree");
+        return 0;
     }
     let code = case["code"].as_str().unwrap_or("");
     let mut ctx = if case["prelude"].as_bool().unwrap_or(true) { prelude_ctx() } else { Context::new_without_importer() };
